@@ -178,6 +178,18 @@ Theorem C06_ratio_to_report_spec : forall d sp rows g r,
      (to_q (g r) = None -> afun_val d sp rows FRatio g r = Ok VNull)).
 Proof. exact ratio_spec. Qed.
 
+(* ---------------------------------------------------------------- operand types *)
+(* the numeric functions over a component not declared Integer/Number are the semantic error 1-1-1-1; otherwise the typed entry
+   points are the functions all the statements above are about *)
+Theorem C06_type_check : forall numeric f sp d,
+  (numeric_only f = true /\ In false numeric -> d_analytic_t numeric f sp d = Err ERR_IMPLICIT_CAST) /\
+  (numeric_only f = false \/ (forall b, In b numeric -> b = true) -> d_analytic_t numeric f sp d = d_analytic f sp d).
+Proof. exact analytic_type_check. Qed.
+Theorem C06_type_check_calc : forall opn d name f sp operand,
+  (numeric_only f = true /\ opn = false -> d_calc_analytic_t opn d name f sp operand = Err ERR_IMPLICIT_CAST) /\
+  (numeric_only f = false \/ opn = true -> d_calc_analytic_t opn d name f sp operand = d_calc_analytic d name f sp operand).
+Proof. exact calc_analytic_type_check. Qed.
+
 (* ---------------------------------------------------------------- a concrete dataset (hypotheses satisfiable, values as the engine's) *)
 Example C06_example :
   let D := mkD ["Id_1"; "Id_2"]%string ["Me_1"]%string
@@ -222,4 +234,6 @@ Print Assumptions C06_lag_spec.
 Print Assumptions C06_lead_spec.
 Print Assumptions C06_position_exists.
 Print Assumptions C06_ratio_to_report_spec.
+Print Assumptions C06_type_check.
+Print Assumptions C06_type_check_calc.
 Print Assumptions C06_example.
